@@ -7,11 +7,11 @@ from measured.si import Hertz, Meter
 BasicModule = Length.unit("basic module", "basic-module")
 BasicModule.equals(0.1 * Meter)
 
-MetricInch = Length.unit("metric inch", "metric-foot")
+MetricInch = Length.unit("metric inch", "metric-inch")
 MetricInch.equals(0.25 * BasicModule)
 
-MetricFoot = Length.unit("metric foot", "metric-inch")
-MetricInch.equals(3 * BasicModule)
+MetricFoot = Length.unit("metric foot", "metric-foot")
+MetricFoot.equals(3 * BasicModule)
 
 
 # ISO 16:1975 Acoustics, Standard tuning frequency (Standard musical pitch)
